@@ -9,13 +9,17 @@ def build(ctx):
     objs = B.build_lib("asan", d)
     exes = {"h_table": B.build_harness("asan", d, "h_table", ["h_table.c", "refdec.c"], objs)}
     exes.update(B.build_tools("asan", d, objs, names=("mtbl_dump", "mtbl_info")))
+    d2 = ctx.builddir + "/plain"
+    exes["h_table.plain"] = B.build_harness("plain", d2, "h_table.plain", ["h_table.c", "refdec.c"], B.build_lib("plain", d2))
     return exes
 
 
 def run(ctx):
     exes = build(ctx)
     th = ctx.tier == "thorough"
-    ctx.fan(exes["h_table"], "c09", 40000 if th else 3000, timeout=120)
+    # beside the main fan: one writer-made block whose entry area is exactly UINT32_MAX bytes (thorough: UINT32_MAX-1, +1, +4096 too), -O2 build
+    ctx.fan_parallel([((exes["h_table"], "c09", 40000 if th else 3000), dict(timeout=120, max_workers=14)),
+                      ((exes["h_table.plain"], "bigblock", 4), dict(chunk=1, timeout=900, max_workers=2, cases=None if th else [1]))])
     s = ctx.stats
     ctx.assumptions += ["trusted: harness/refdec.c (own varint, CRC-32C, block parser; zlib/snappy/lz4/zstd called directly)",
                         "the converse block-size rule ('must close as soon as the estimate reaches the limit') is not stated and not demanded",
@@ -26,6 +30,7 @@ def run(ctx):
         evaluations=s.get("c09.files_validated", 0),
         floors={"c09.files_validated": 2500, "c09.multi_block_files": 200, "c09.separators_checked": 2000, "c09.separators_shortened": 200,
                 "c09.rule.block_closed_only_at_limit": 2000, "c09.rule.multi_entry_block_within_size": 2000, "c09.rule.restart_cadence": 50000,
-                "c09.multibyte_shared_varint": 50, "c09.multibyte_vlen_varint": 200, "c09.single_entry_blocks": 50, "c09.files_with_foreign_prefix": 100},
+                "c09.multibyte_shared_varint": 50, "c09.multibyte_vlen_varint": 200, "c09.single_entry_blocks": 50, "c09.files_with_foreign_prefix": 100, "bigblock.restart_width.32": 1,
+                **({"bigblock.restart_width.64": 2, "bigblock.cases": 4} if th else {})},
         extra={"programs": s.get("c09.files_validated", 0), "disagreements_checked": sum(rules.values()), "rule_checks": rules,
                "blocks": s.get("c09.blocks", 0), "entries": s.get("c09.entries", 0), "restart_points": s.get("c09.restart_points", 0)})
